@@ -7,9 +7,9 @@ WT=/tmp/seed-$PROP; OUT=/tmp/seed-$PROP-out
 export GOFLAGS=-mod=mod GOPROXY=off
 cd $WT || exit 2
 echo "--- demo with change (must fail)"; bash -c "$DEMO" >/tmp/keep.$PROP.1 2>&1; rc1=$?; tail -3 /tmp/keep.$PROP.1
-git stash -q || exit 2
+git diff > /tmp/keep.$PROP.patch; git apply -R /tmp/keep.$PROP.patch || exit 2
 echo "--- demo without change (must pass)"; bash -c "$DEMO" >/tmp/keep.$PROP.2 2>&1; rc2=$?; tail -3 /tmp/keep.$PROP.2
-git stash pop -q
+git apply /tmp/keep.$PROP.patch
 mkdir -p /tmp/keep-aside-$PROP; for f in $(git status --short | grep '^??' | awk '{print $2}'); do mkdir -p /tmp/keep-aside-$PROP/$(dirname $f); mv $f /tmp/keep-aside-$PROP/$f; done
 PKGS=$(git diff --name-only | xargs -n1 dirname | sort -u | sed 's|^|./|' | tr '\n' ' ')
 echo "--- existing tests with change: ./lang/... $PKGS"
